@@ -157,6 +157,11 @@ T('c11-strings', 'A ::= SEQUENCE { n NumericString (SIZE(1..2)), p PrintableStri
 T('c11-ext', 'A ::= SEQUENCE { a INTEGER (0..7, ...), s IA5String (SIZE(1, ...)), '
   'l SEQUENCE (SIZE(1..2, ...)) OF INTEGER (0..1) }', feats={'constraint', 'ext'})
 
+T('combo-default-shared', 'A ::= SEQUENCE { lo Low, hi High }\n'
+  'Low ::= SEQUENCE { id INTEGER (0..7), level Level DEFAULT 1 }\n'
+  'High ::= SEQUENCE { id INTEGER (0..7), level Level DEFAULT 9 }\nLevel ::= INTEGER (0..15)',
+  feats={'combo', 'ref', 'opt'}, tags='')
+
 BY_ID = {t['id']: t for t in TEMPLATES}
 
 
